@@ -57,6 +57,31 @@ def shapes(rs: dict) -> list[str]:
                 break
     if "empty_body_loop" not in out and any(o["name"] in dc.JUMPY and o["name"] not in ("Jump", "Call") and o["params"] and o["params"][-1] == o["off"] for o in ops):
         out.append("empty_body_loop")     # a test op that branches to itself ('while (c) { }')
+    for r in rs["ops"]:
+        edges = [(o["params"][-1], o["off"]) for o in r if o["name"] in dc.JUMPY and o["params"] and isinstance(o["params"][-1], int) and o["params"][-1] <= o["off"]]
+        complex_ = any(t1 != t2 and not (s1 < t2 or s2 < t1) for i, (t1, s1) in enumerate(edges) for (t2, s2) in edges[i + 1:])
+        for t, s_ in edges:
+            # a simple loop is straight-line code plus its own test and back jump (forever / while / while not / for as compiled)
+            if sum(1 for o in r if t <= o["off"] <= s_ and o["name"] in dc.JUMPY) > 2:
+                complex_ = True
+        if complex_:
+            out.append("complex_loop")
+            break
+    targets: dict = {}
+    for o in ops:
+        if o["name"] in dc.JUMPY and o["params"] and isinstance(o["params"][-1], int):
+            targets.setdefault(o["params"][-1], set()).add(o["off"])
+    for r in rs["ops"]:
+        for a, b in zip(r, r[1:]):
+            if a["name"].startswith("Branch") and (targets.get(b["off"], set()) - {a["off"]}):
+                out.append("test_falls_into_join")   # the not-taken path of a condition enters a point other ops jump to
+                break
+        else:
+            continue
+        break
+    jump_targets = {o["params"][-1] for o in ops if o["name"] == "Jump" and o["params"]}
+    if any(o["name"].startswith("Branch") and o["params"] and o["params"][-1] in jump_targets for o in ops):
+        out.append("branch_to_shared_join")   # e.g. 'if (c) { break; }' folded into the branch: its target is a join other jumps use
     if rs.get("_unreachable"):
         out.append("unreachable_ops")
     if back:
